@@ -195,6 +195,8 @@ def agg_cases(tag, behs):
 
 
 def run_vhw(cases, wd, nproc=4, timeout=600):
+    from common import tscale
+    timeout = tscale(timeout)
     nproc = max(1, min(nproc, len(cases) // 200 + 1))
     chunks = [cases[i::nproc] for i in range(nproc)]
 
